@@ -856,7 +856,9 @@ class NullByteOrderer final {
   NullByteOrderer &operator=(const NullByteOrderer &other) = default;
 
   bool Ok() const { return buffer_.Ok(); }
-  ::std::size_t SizeInBytes() const { return Ok() ? 1 : 0; }
+  // Pass the real size through, so that a BitBlock over a truncated (empty)
+  // buffer is not Ok(), and reads of it are not attempted.
+  ::std::size_t SizeInBytes() const { return buffer_.SizeInBytes(); }
 
   template </**/ ::std::size_t kBits>
   typename LeastWidthInteger<kBits>::Unsigned ReadUInt() const {
